@@ -123,6 +123,7 @@ fn main() {
             let out = arg_s(&args, "--out", "/tmp/seq");
             let flavor = match arg_s(&args, "--flavor", "mixed").as_str() {
                 "single" => Flavor::SingleSlot,
+                "init" => Flavor::InitCycle,
                 "change" => Flavor::Change,
                 "malformed" => Flavor::Malformed,
                 "handoff" => Flavor::Handoff,
